@@ -6,7 +6,8 @@ proof:          lean/OdfModel/Props/C12.lean (normGen_idempotent, render_pure, q
 correspondence: the same sequence of output calls on the real document and on drv_render: document dump
                 after every call (unchanged / exactly the model's new document) and every output
                 (XML infoset, package member list) compared
-oracle:         on the real library, independent of the model: deep snapshot of the document (tree,
+oracle:         on the real library, independent of the model, for one document and for several live documents
+                (unrelated ones, a parent and its embedded objects) with interleaved calls: deep snapshot of the document (tree,
                 parent/owner links, getElementsByType / getStyleByName results, Pictures, child objects,
                 instance attributes) before and after every call - equal, or equal to the snapshot with
                 the generator normalised; pairwise infoset comparison (expat) of repeated outputs of the
@@ -125,7 +126,8 @@ def build(r):
         ref = d.addObject(sub)
         fr = draw.Frame(width=u'3cm', height=u'3cm', anchortype=u'paragraph'); fr.addElement(draw.Object(href=ref))
         par = text.P(); par.addElement(fr); d.text.addElement(par)
-        sub2 = opendocument.OpenDocumentChart(); d.addObject(sub2)
+        sub._extra.append(opendocument.OpaqueObject(u'subextra.bin', u'application/octet-stream', b'SUBX'))
+        sub2 = opendocument.OpenDocumentChart(); d.addObject(sub2, u'Chart 7')
         d.addThumbnail(PNG + b'thumb')
         d._extra.append(opendocument.OpaqueObject(u'Configurations2/', u'application/vnd.sun.xml.ui.configuration', None))
         d._extra.append(opendocument.OpaqueObject(u'extra.bin', u'application/octet-stream', b'EXTRA'))
@@ -156,7 +158,7 @@ def tree_with_links(n, parent, doc, bad):
     return (tuple(n.qname), tuple(sorted((tuple(q), u'%s' % (v,)) for q, v in n.attributes.items())), kids)
 
 
-def snapshot(doc, depth=0):
+def snapshot(doc, depth=0, world=None):
     from odf import text, style, meta, dc, config, draw, table, number
     bad = []
     s = {}
@@ -176,7 +178,11 @@ def snapshot(doc, depth=0):
     s['thumbnail'] = doc.thumbnail
     s['extra'] = tuple((o.filename, o.mediatype, o.content) for o in doc._extra)
     s['misc'] = (doc.mimetype, doc.folder, tuple(sorted(doc.__dict__.keys())))
-    s['objects'] = tuple(snapshot(o, depth + 1) for o in doc.childobjects) if depth < 3 else ()
+    if world is not None:
+        # every live document is snapshotted on its own; here only WHICH documents are attached
+        s['objects'] = tuple([i for i, w in enumerate(world) if w is o] for o in doc.childobjects)
+    else:
+        s['objects'] = tuple(snapshot(o, depth + 1) for o in doc.childobjects) if depth < 3 else ()
     return s
 
 
@@ -326,12 +332,21 @@ def canon_tokens(toks, pos=0, filt=False):
     return out, pos
 
 
-def dump_doc(doc, coder, top=True):
+def dump_extras(doc, coder):
+    out = [str(len(doc._extra))]
+    for o in doc._extra:
+        out += [enc_str(o.filename), enc_str(o.mediatype), 'N' if o.content is None else str(coder.blob(o.content))]
+    return out
+
+
+def dump_doc(doc, coder, top=True, parent=None):
     kids = list(doc.topnode.childNodes)
     want = [doc.meta, doc.scripts, doc.fontfacedecls, doc.settings, doc.styles, doc.automaticstyles, doc.masterstyles, doc.body]
     if len(kids) != 8 or any(a is not b for a, b in zip(kids, want)):
         return ['UNMODELLED-TOPNODE', str(len(kids))]
     out = [enc_str(doc.mimetype)]
+    if not top:
+        out.insert(0, enc_str(doc.folder[len(parent.folder) + 1:] + u'/'))
     if top:
         out.append(str(len(doc.topnode.attributes)))
         for q, v in doc.topnode.attributes.items():
@@ -344,11 +359,12 @@ def dump_doc(doc, coder, top=True):
     if top:
         out.append(str(len(doc.childobjects)))
         for o in doc.childobjects:
-            out += dump_doc(o, coder, top=False)
+            out += dump_doc(o, coder, top=False, parent=doc)
         out.append('N' if doc.thumbnail is None else str(coder.blob(doc.thumbnail)))
-        out.append(str(len(doc._extra)))
-        for o in doc._extra:
-            out += [enc_str(o.filename), enc_str(o.mediatype), 'N' if o.content is None else str(coder.blob(o.content))]
+        out.append(enc_str(getattr(doc, '_thumbnail_mediatype', u'')))
+        out += dump_extras(doc, coder)
+    else:
+        out += dump_extras(doc, coder)
     return out
 
 
@@ -448,6 +464,79 @@ def run_sequence(chk, recipe, ops, T, tv, lines, pend):
         chk.count('not_sent_to_model')
 
 
+def live_documents(docs):
+    live = []
+    def add(d):
+        live.append(d)
+        for o in d.childobjects:
+            add(o)
+    for d in docs:
+        add(d)
+    return live
+
+
+def run_world(chk, recipes, calls, tv):
+    """several live documents (each recipe's document plus the objects embedded in it), output calls interleaved;
+    after EVERY call ALL live documents are snapshotted: the one rendered may have its generator normalised,
+    every other one must be exactly as before; repeated outputs are compared per document"""
+    live = live_documents([build(r) for r in recipes])
+    case = {'world': {'recipes': recipes, 'calls': [list(c) for c in calls]}}
+    prev = [snapshot(d, world=live) for d in live]
+    seen = {}
+    for step, (i, op) in enumerate(calls):
+        i = i % len(live)
+        data = call(live[i], op)
+        now = [snapshot(d, world=live) for d in live]
+        for j in range(len(live)):
+            if now[j] == prev[j]:
+                continue
+            if j == i:
+                norm = normalise_snapshot(prev[j], tv)
+                if now[j] != norm:
+                    chk.fail('document-changed:' + op, dict(case, at=step),
+                             '%s() on document %d changed it beyond generator normalisation: differs in %s'
+                             % (op, i, snap_diff(norm, now[j])))
+            else:
+                chk.fail('other-document-changed:' + op, dict(case, at=step),
+                         'call %d, %s() on live document %d, changed live document %d: differs in %s'
+                         % (step, op, i, j, snap_diff(prev[j], now[j])))
+            if now[j]['links']:
+                chk.fail('broken-links:' + op, dict(case, at=step), 'document %d after %s() on %d: %s' % (j, op, i, list(now[j]['links'])[:4]))
+        prev = now
+        info = out_infoset(op, data)
+        if (i, op) in seen:
+            chk.count('world_repeated_outputs_compared')
+            if info != seen[(i, op)][1]:
+                chk.fail('not-repeatable:' + op, dict(case, at=step, first=seen[(i, op)][0]),
+                         'calls %d and %d of %s() on live document %d give different infosets' % (seen[(i, op)][0], step, op, i))
+        else:
+            seen[(i, op)] = (step, info)
+        chk.count('world_calls')
+    chk.count('world_histories')
+    chk.count('world_of_%d_documents' % len(live))
+    chk.case(('world', tuple(r['builder'] for r in recipes), tuple(tuple(c) for c in calls)), nontrivial=len(live) > 1 and len(calls) > 1,
+             sample={'world_builders': [r['builder'] for r in recipes], 'live': len(live), 'calls': calls[:6]} if len(calls) < 5 else None)
+
+
+def world_histories(chk, recipes):
+    """(recipes of the world, calls); document indices are taken modulo the number of live documents"""
+    worlds = [[0, 1], [3, 4], [2], [2, 0], [1, 2, 3]]
+    nlong, nshort = (6, 60) if chk.tier == 'thorough' else (2, 12)
+    NORM = ['save', 'write', 'xml', 'metaxml']
+    for w in worlds:
+        rs = [recipes[k] for k in w]
+        nlive = len(w) + 2 * w.count(2)
+        for _ in range(nlong):
+            yield rs, [(chk.rng.randrange(nlive), chk.rng.choice(OPS)) for _ in range(30)]
+        for _ in range(nshort):
+            a = chk.rng.randrange(nlive)
+            b = chk.rng.choice([x for x in range(nlive) if x != a] or [a])
+            calls = [(a, chk.rng.choice(NORM)), (b, chk.rng.choice(OPS))]
+            if chk.rng.random() < 0.5:
+                calls.append((chk.rng.choice([a, b]), chk.rng.choice(OPS)))
+            yield rs, calls
+
+
 def compare_model(chk, case, states, outs_tok, answer):
     chk.corr()
     if not answer.startswith('ok'):
@@ -496,12 +585,20 @@ def run(chk, replay=None):
     chk.rule = ('5 generated documents (metadata with a foreign / missing / doubled generator, settings, common and '
                 'automatic styles, master page, body, pictures, embedded objects, thumbnail, extra members, one loaded '
                 'from a saved package) x all ordered pairs of the 7 output calls + random sequences of length 3..6 '
-                '(thorough: all sequences up to length 4); non-trivial = at least two calls')
+                '(thorough: all sequences up to length 4); plus worlds of 2..6 live documents (two or three unrelated documents, '
+                'a parent with its embedded objects) with the calls interleaved over all of them, every live document '
+                'snapshotted after every call; non-trivial = at least two calls')
     T = translate_styles.tables()
     tv = TOOLSVERSION
     if replay is not None:
         inp = replay['input']
         before = len(chk.failures) + len(chk.known_hits)
+        if 'world' in inp:
+            run_world(chk, inp['world']['recipes'], [tuple(c) for c in inp['world']['calls']], tv)
+            for f in chk.failures:
+                print('replay: %s: %s' % (f['sig'], f['detail']))
+            print('replay: world of %d recipes, %d calls: %d failures' % (len(inp['world']['recipes']), len(inp['world']['calls']), len(chk.failures)))
+            return 1 if len(chk.failures) + len(chk.known_hits) > before else 0
         run_sequence(chk, inp['recipe'], inp['ops'], T, tv, [], [])
         for f in chk.failures:
             print('replay: %s: %s' % (f['sig'], f['detail']))
@@ -517,6 +614,9 @@ def run(chk, replay=None):
     answers = drv.batch(lines)
     for (case, states, outs_tok), ans in zip(pend, answers):
         compare_model(chk, case, states, outs_tok, ans)
+    # several live documents, calls interleaved (oracle; the model treats documents as independent states: world_pure)
+    for rs, calls in world_histories(chk, recipes):
+        run_world(chk, rs, calls, tv)
 
     def deep():
         for r in range(len(recipes)):
